@@ -2,6 +2,7 @@ package h
 
 import (
 	"fmt"
+	"github.com/netflix/rend/verifshim/vsync"
 	"sort"
 	"strings"
 
@@ -65,6 +66,9 @@ type kvIn struct {
 	Key   string
 	Val   string
 	Flags uint32
+	// Expire: a touch / get-and-touch whose expiry is an absolute time in the past (the key is
+	// gone afterwards)
+	Expire bool
 }
 
 type kvOut struct {
@@ -106,10 +110,16 @@ func kvStep(st kvState, in kvIn) (kvState, kvOut) {
 		if !st.Present {
 			return st, kvOut{Class: "refused"}
 		}
+		if in.Expire {
+			return kvState{}, kvOut{Class: "ok"}
+		}
 		return st, kvOut{Class: "ok"}
 	case "get", "gat":
 		if !st.Present {
 			return st, kvOut{Class: "miss"}
+		}
+		if in.Kind == "gat" && in.Expire {
+			return kvState{}, kvOut{Class: "hit", Val: st.Val, Flags: st.Flags}
 		}
 		return st, kvOut{Class: "hit", Val: st.Val, Flags: st.Flags}
 	}
@@ -146,6 +156,10 @@ var kvModel = porcupine.Model{
 }
 
 // toPorcupine converts the history; a multi-key get is split per key as the property states.
+// expiresNow: memcached reads a TTL above 30 days as an absolute unix time; one before the
+// (virtual) present removes the key.
+func expiresNow(ttl uint32) bool { return ttl > 30*24*3600 && ttl < bubbleEpoch }
+
 func toPorcupine(hist []HistOp, init map[string]kvState) (ops []porcupine.Operation, bad string) {
 	for k, st := range init {
 		if st.Present {
@@ -174,13 +188,13 @@ func toPorcupine(hist []HistOp, init map[string]kvState) (ops []porcupine.Operat
 				if h.Op.Kind == "gat" {
 					kind = "gat"
 				}
-				ops = append(ops, porcupine.Operation{ClientId: h.Thread, Input: kvIn{Kind: kind, Key: k}, Call: h.Call, Output: out, Return: h.Ret})
+				ops = append(ops, porcupine.Operation{ClientId: h.Thread, Input: kvIn{Kind: kind, Key: k, Expire: kind == "gat" && expiresNow(h.Op.TTL)}, Call: h.Call, Output: out, Return: h.Ret})
 			}
 		default:
 			if (r.Class != "ok" && r.Class != "refused") || r.Malformed != "" {
 				return nil, fmt.Sprintf("T%d op %d (%s): unexpected reply %s", h.Thread, h.Idx, h.Op, r)
 			}
-			ops = append(ops, porcupine.Operation{ClientId: h.Thread, Input: kvIn{Kind: h.Op.Kind, Key: h.Op.Key, Val: h.Op.Val, Flags: h.Op.Flags}, Call: h.Call, Output: kvOut{Class: r.Class}, Return: h.Ret})
+			ops = append(ops, porcupine.Operation{ClientId: h.Thread, Input: kvIn{Kind: h.Op.Kind, Key: h.Op.Key, Val: h.Op.Val, Flags: h.Op.Flags, Expire: h.Op.Kind == "touch" && expiresNow(h.Op.TTL)}, Call: h.Call, Output: kvOut{Class: r.Class}, Return: h.Ret})
 		}
 	}
 	return ops, ""
@@ -197,6 +211,12 @@ func RunConc(sc ConcScenario, prefix []int) *ConcResult {
 // whether the fault was reached and whether thread 0's client connection ended up closed.
 func runConcWithFault(sc ConcScenario, hf *HandlerFault, prefix []int) (res *ConcResult, faultHit bool, t0closed bool) {
 	res = &ConcResult{}
+	vsync.TakeDoublePuts()
+	defer func() {
+		if f := doublePut(sc.Harness); f != nil {
+			res.Findings = append(res.Findings, *f)
+		}
+	}()
 	s := sched.New(prefix)
 	res.S = s
 	w := NewWorld(sc.Cfg)
@@ -351,10 +371,15 @@ func runConcWithFault(sc ConcScenario, hf *HandlerFault, prefix []int) (res *Con
 			}
 		} else if sc.Cfg.Orca != "l1only" {
 			for _, k := range w.L1.Keys() {
-				a := w.L1.M[k]
+				a := w.L1.Lookup(k)
+				if a == nil {
+					continue // physically present but expired
+				}
 				b := w.L2.Lookup(k)
 				if b == nil || string(a.Val) != string(b.Val) || a.Flags != b.Flags {
 					add("l1-differs-from-l2", fmt.Sprintf("after all commands completed L1 holds %q=%q/%x, L2 holds %v", k, a.Val, a.Flags, b))
+				} else if a.Exp != b.Exp {
+					add("l1-expiry-differs-from-l2", fmt.Sprintf("after all commands completed L1 holds %q until %d, L2 until %d (0 = for ever)", k, a.Exp, b.Exp))
 				}
 			}
 		}
